@@ -395,6 +395,11 @@ class Scheduler:
                 d = self.parse_detail(detail)
                 if self.lock_free(int(d["fid"]), d.get("type", "w")):
                     out.append((p.lid, p.pid, kind, "go", detail))
+            elif kind == "script" and detail.startswith("wait:"):
+                # a script waiting for another script's flag (worlds.Spec.sync): enabled once the flag exists
+                flag = detail[5:].split(" ", 1)[0]
+                if os.path.exists(os.path.join(self.workdir, "flags", flag)):
+                    out.append((p.lid, p.pid, kind, "go", detail))
             elif kind == "log-poll":
                 out.append((p.lid, p.pid, kind, "poll", detail))
             elif kind == "select-order":
